@@ -314,6 +314,15 @@ def dropIn (db : SeqDB) (h : Handle) (c : SColl) (name : String) : Res SeqDB :=
   | .error e => .error e
   | .ok c' => .ok (db.put h c')
 
+/-- dropIndex by name ("" = all but `_id_`): the collection must exist -/
+def dropIndexCall (db : SeqDB) (h : Handle) (name : String) : Res SeqDB :=
+  match writable h true with
+  | .error e => .error e
+  | .ok _ =>
+    match db.get? h with
+    | none => .error .err
+    | some c => dropIn db h c name
+
 def indexSpecDoc (name : String) (cfg : IndexConfig) : Doc :=
   ([("v", V.i32 2), ("key", .doc cfg.key), ("name", .str name)] : Doc) ++
   (if cfg.unique && name != "_id_" then [("unique", .bool true)] else []) ++
@@ -643,22 +652,13 @@ def step (sch : SchemaEval) (db : SeqDB) (c : Call) (oids : List V) : Res (SeqDB
       | .error e => .error e
       | .ok (c', name) => .ok (db.put h c', .name name)
   | .dropIndex h name =>
-    match writable h true with
+    match dropIndexCall db h name with
     | .error e => .error e
-    | .ok _ =>
-      match db.get? h with
-      | none => .error .err
-      | some c =>
-        match dropIn db h c name with
-        | .error e => .error e
-        | .ok db' => .ok (db', .unit)
+    | .ok db' => .ok (db', .unit)
   | .dropAllIndexes h =>
-    match writable h true with
+    match dropIndexCall db h "" with
     | .error e => .error e
-    | .ok _ =>
-      match db.get? h with
-      | none => .error .err
-      | some c => .ok (dropAllIn db h c, .unit)
+    | .ok db' => .ok (db', .unit)
   | .dropIndexByKey h key =>
     match writable h true with
     | .error e => .error e
@@ -666,10 +666,10 @@ def step (sch : SchemaEval) (db : SeqDB) (c : Call) (oids : List V) : Res (SeqDB
       match db.get? h with
       | none => .error .err
       | some c =>
-        match c.defs.find? (fun (_, k) => V.cmp (.doc k.key) (.doc key) == .eq) with
+        match c.defs.find? (fun x => V.cmp (.doc x.2.key) (.doc key) == .eq) with
         | none => .error .err
         | some (name, _) =>
-          match dropIn db h c name with
+          match dropIndexCall db h name with
           | .error e => .error e
           | .ok db' => .ok (db', .unit)
   | .listIndexes h =>
